@@ -1,12 +1,824 @@
-// placeholder, replaced below
+// EpochManager scenarios: C04 (a live guard pins its epoch), C16 (epoch advances by one, reclamation can progress),
+// C17 (the list handed out is the caller's own and stable), C20 (sequential reference model, memory bounded and freed).
+#include <algorithm>
+#include <memory>
+#include <optional>
+#include <string>
+#include <vector>
+
 #include "common.hpp"
-namespace sim {
-namespace {
-void generate(Program &, dsim::Config &, dsim::Rng &, dsim::Rng &, int, int) {}
-void entry(void *) {}
-std::string render(const Program &) { return ""; }
-std::string tags(const Program &, const char *) { return ""; }
-const char *const kNames[] = {nullptr};
+#include "dbgroup/thread/epoch_manager.hpp"
+
+namespace sim
+{
+void set_probe_hash(size_t h);
+
+namespace
+{
+using dbgroup::thread::EpochGuard;
+using dbgroup::thread::EpochManager;
+constexpr size_t kN = dbgroup::thread::kMaxThreadNum;
+constexpr size_t kInitial = EpochManager::kInitialEpoch;
+
+enum Profile : int { kPin = 0, kAdvance = 1, kLists = 2, kSequential = 3 };
+enum Kind : int {
+  // worker operations (concurrent profiles)
+  kGuard = 0,     // a = hold yields, b = 1: GetProtectedEpochs (list checks) / 0: CreateEpochGuard, c = re-reads of the list
+  kReadings,      // a = number of GetCurrentEpoch/GetMinEpoch reading pairs
+  kRestart,       // the vthread exits; a fresh vthread (possibly reusing the ID) continues with the remaining operations
+  kGuardMove,     // guard created, move-constructed and move-assigned while alive (still pins)
+  // coordinator operations
+  kForward,       // a = number of ForwardGlobalEpoch calls, b = yields between them
+  // sequential history (profile 3), executed one at a time
+  kSeqForward,    // a = m forwards
+  kSeqCreate,     // obj = worker slot
+  kSeqDestroy,    // obj = worker slot
+  kSeqRestart,    // obj = worker slot (exit, join, fresh thread)
+  kKinds
+};
+
+constexpr int kTagCtor = 2, kTagForward = 3, kTagGuard = 4;
+
+enum Probe : int {
+  pNodeCreated = 0, pNodeRetired, pWorkerAcrossForwards, pIdReuse, pGuardSeenByForward, pQuiescentForward, pListChecked, pGuardStraddledForward,
+  pRestart, pPinnedAcrossBoundary, pProbes
+};
+const char *const kProbeNames[] = {"forward_created_list_node", "forward_retired_list_node", "guard_alive_across_two_or_more_forwards",
+                                   "slot_reused_by_new_thread", "live_guard_checked_after_forward", "quiescent_forward_checked",
+                                   "protected_list_checked", "guard_creation_overlapped_forward", "worker_exit_and_restart",
+                                   "guard_pinned_across_node_boundary", nullptr};
+
+std::string g_prop;
+bool tagged(const char *tags) { return g_prop.empty() || strstr(tags, g_prop.c_str()) != nullptr; }
+
+struct GuardRec {
+  int vt;
+  size_t epoch;
+  uint64_t forwards_at_creation;
+  bool alive;
+};
+
+struct State {
+  const Program *prog = nullptr;
+  EpochManager *mgr = nullptr;
+  std::vector<GuardRec> guards;        // ghost set G (complete guards whose destruction has not begun)
+  uint64_t guard_activity = 0;         // bumped at every CreateEpochGuard invocation and at every completed destruction
+  int creates_in_flight = 0;
+  int destroys_in_flight = 0;          // destruction has begun (ghost unregistered) but LeaveEpoch may not have run yet
+  uint64_t forwards_done = 0;          // completed ForwardGlobalEpoch calls (including the prologue)
+  uint64_t forwards_started = 0;
+  size_t max_min_seen = 0;             // largest GetMinEpoch value observed so far
+  size_t last_cur[dsim::kMaxVT] = {0}; // last GetCurrentEpoch reading per vthread
+  uint64_t other_events = 0;
+  size_t nodes_seen_max = 0;
+  size_t total_node_allocs_before = 0;
+  // sequential mode
+  int slot_vt[8] = {0};
+  int slot_cmd[8] = {0};
+  bool slot_has_guard[8] = {false};
+  size_t slot_epoch[8] = {0};
+  bool exited_any = false;
+  std::vector<std::pair<int, int>> succ;  // (exiting vthread, its successor)
+};
+State *S = nullptr;
+
+#define ORACLE(tags, cls, ...)                      \
+  do {                                              \
+    if (tagged(tags)) {                             \
+      char _c[160];                                 \
+      snprintf(_c, sizeof(_c), "%s %s", tags, cls); \
+      dsim::fail(_c, __VA_ARGS__);                  \
+    } else {                                        \
+      S->other_events++;                            \
+    }                                               \
+  } while (0)
+
+size_t live_nodes()
+{
+  return dsim::heap_live_aligned(kTagCtor, 4096, 64) + dsim::heap_live_aligned(kTagForward, 4096, 64);
 }
-const Scenario kEpochScenario = {"epoch", generate, entry, render, tags, kNames, nullptr};
+
+// ---- readings (C16) ------------------------------------------------------------------------------
+void reading_current(const char *who)
+{
+  const int me = dsim::self();
+  dsim::op_begin("GetCurrentEpoch", 0);
+  const size_t cur = S->mgr->GetCurrentEpoch();
+  dsim::op_end();
+  if (cur < S->last_cur[me]) {
+    ORACLE("[C16]", "current-epoch-decreased", " :: %s vt%d read GetCurrentEpoch %zu after %zu", who, me, cur, S->last_cur[me]);
+  }
+  S->last_cur[me] = cur;
+  if (cur < S->max_min_seen) {
+    ORACLE("[C16]", "min-epoch-exceeds-later-current", " :: GetCurrentEpoch returned %zu to vt%d after GetMinEpoch had returned %zu", cur, me,
+           S->max_min_seen);
+  }
 }
+size_t reading_min()
+{
+  dsim::op_begin("GetMinEpoch", 0);
+  const size_t m = S->mgr->GetMinEpoch();
+  dsim::op_end();
+  if (m > S->max_min_seen) S->max_min_seen = m;
+  return m;
+}
+
+// ---- list checks (C17) ---------------------------------------------------------------------------
+void check_list_shape(const std::vector<size_t> &copy, size_t guard_epoch, const char *when)
+{
+  dsim::probe(pListChecked);
+  if (copy.empty()) {
+    ORACLE("[C17]", "list-empty", " :: GetProtectedEpochs handed vt%d an empty list for epoch %zu (%s)", dsim::self(), guard_epoch, when);
+    return;
+  }
+  for (size_t i = 1; i < copy.size(); ++i) {
+    if (!(copy[i - 1] > copy[i])) {
+      ORACLE("[C17]", "list-not-strictly-descending", " :: list of vt%d for epoch %zu has %zu before %zu (%s)", dsim::self(), guard_epoch, copy[i - 1],
+             copy[i], when);
+      return;
+    }
+  }
+  if (copy.front() != guard_epoch) {
+    ORACLE("[C17]", "list-belongs-to-another-epoch", " :: vt%d holds a guard for epoch %zu but was handed the list that starts with %zu (%s)", dsim::self(),
+           guard_epoch, copy.front(), when);
+    return;
+  }
+  if (guard_epoch > kInitial && std::find(copy.begin(), copy.end(), guard_epoch - 1) == copy.end()) {
+    ORACLE("[C17]", "list-misses-preceding-epoch", " :: list of vt%d for epoch %zu does not contain %zu (%s)", dsim::self(), guard_epoch,
+           guard_epoch - 1, when);
+  }
+}
+
+// ---- worker operations -----------------------------------------------------------------------------
+size_t ghost_register(size_t epoch)
+{
+  S->guards.push_back(GuardRec{dsim::self(), epoch, S->forwards_done, true});
+  return S->guards.size() - 1;
+}
+void ghost_unregister(size_t idx)
+{
+  GuardRec &g = S->guards[idx];
+  if (S->forwards_done >= g.forwards_at_creation + 2) dsim::probe(pWorkerAcrossForwards);
+  if ((g.epoch / 256) != (S->last_cur[0] / 256) && S->last_cur[0] != 0) dsim::probe(pPinnedAcrossBoundary);
+  g.alive = false;
+  S->destroys_in_flight++;
+}
+
+void op_guard(const Op &op)
+{
+  const uint64_t fs = S->forwards_started, fd = S->forwards_done;
+  S->guard_activity++;
+  S->creates_in_flight++;
+  dsim::set_alloc_tag(kTagGuard);
+  if (op.b) {
+    dsim::op_begin("GetProtectedEpochs", 0);
+    auto pr = S->mgr->GetProtectedEpochs();
+    dsim::op_end();
+    dsim::set_alloc_tag(0);
+    if (S->forwards_started != fs || fs != fd) dsim::probe(pGuardStraddledForward);
+    EpochGuard &g = pr.first;
+    const std::vector<size_t> &list = pr.second;
+    const size_t e = g.GetProtectedEpoch();
+    const size_t gi = ghost_register(e);
+    S->creates_in_flight--;  // only now: the creation counts as in flight until the ghost knows the guard
+    std::vector<size_t> copy(list.begin(), list.end());
+    check_list_shape(copy, e, "at return");
+    for (int64_t r = 0; r <= op.c; ++r) {
+      for (int64_t i = 0; i <= op.a; ++i) dsim::yield();
+      std::vector<size_t> again(list.begin(), list.end());
+      if (again != copy) {
+        ORACLE("[C17]", "list-modified-while-guard-alive", " :: the list handed to vt%d for epoch %zu changed while the guard was alive (size %zu -> %zu)",
+               dsim::self(), e, copy.size(), again.size());
+      }
+      if (g.GetProtectedEpoch() != e) {
+        ORACLE("[C04]", "guard-epoch-changed", " :: the guard of vt%d reported epoch %zu at creation and %zu later", dsim::self(), e, g.GetProtectedEpoch());
+      }
+    }
+    ghost_unregister(gi);
+    dsim::op_begin("destroy guard", 0);
+  } else {
+    dsim::op_begin("CreateEpochGuard", 0);
+    EpochGuard g = S->mgr->CreateEpochGuard();
+    dsim::op_end();
+    dsim::set_alloc_tag(0);
+    if (S->forwards_started != fs || fs != fd) dsim::probe(pGuardStraddledForward);
+    const size_t e = g.GetProtectedEpoch();
+    const size_t gi = ghost_register(e);
+    S->creates_in_flight--;
+    for (int64_t i = 0; i <= op.a; ++i) dsim::yield();
+    if (g.GetProtectedEpoch() != e) {
+      ORACLE("[C04]", "guard-epoch-changed", " :: the guard of vt%d reported epoch %zu at creation and %zu later", dsim::self(), e, g.GetProtectedEpoch());
+    }
+    ghost_unregister(gi);
+    dsim::op_begin("destroy guard", 0);
+  }
+  dsim::op_end();
+  S->destroys_in_flight--;
+  S->guard_activity++;
+}
+
+void op_guard_move(const Op &op)
+{
+  S->guard_activity++;
+  S->creates_in_flight++;
+  dsim::set_alloc_tag(kTagGuard);
+  {
+    dsim::op_begin("CreateEpochGuard", 0);
+    EpochGuard g = S->mgr->CreateEpochGuard();
+    dsim::op_end();
+    dsim::set_alloc_tag(0);
+    const size_t e = g.GetProtectedEpoch();
+    const size_t gi = ghost_register(e);
+    S->creates_in_flight--;
+    dsim::yield();
+    EpochGuard h{std::move(g)};
+    for (int64_t i = 0; i <= op.a; ++i) dsim::yield();
+    EpochGuard k;
+    k = std::move(h);
+    dsim::yield();
+    if (k.GetProtectedEpoch() != e) {
+      ORACLE("[C04]", "guard-epoch-changed", " :: the moved guard of vt%d reported epoch %zu at creation and %zu later", dsim::self(), e,
+             k.GetProtectedEpoch());
+    }
+    ghost_unregister(gi);
+    dsim::op_begin("destroy guard", 0);
+  }
+  dsim::op_end();
+  S->destroys_in_flight--;
+  S->guard_activity++;
+}
+
+struct WArg {
+  int slot;
+  size_t from;  // first operation to execute
+  size_t probe_hash;
+};
+
+void worker_fn(void *p);
+
+void run_worker_ops(WArg *w)
+{
+  const auto &ops = S->prog->threads[static_cast<size_t>(w->slot)];
+  for (size_t i = w->from; i < ops.size(); ++i) {
+    const Op &op = ops[i];
+    dsim::set_pos(static_cast<int>(i) + 1);
+    switch (op.kind) {
+      case kGuard: op_guard(op); break;
+      case kGuardMove: op_guard_move(op); break;
+      case kReadings:
+        for (int64_t k = 0; k <= op.a; ++k) {
+          reading_current("worker");
+          reading_min();
+          dsim::yield();
+        }
+        break;
+      case kRestart: {
+        // exit; a fresh thread continues (it may be given the ID this thread is about to release)
+        auto *nw = new WArg{w->slot, i + 1, w->probe_hash + static_cast<size_t>(op.a)};
+        dsim::count_fault(dsim::kFThreadExit);
+        dsim::count_fault(dsim::kFThreadRestart);
+        dsim::probe(pRestart);
+        S->exited_any = true;
+        S->slot_vt[w->slot] = dsim::next_vt_id();  // registered before spawn's scheduling point
+        S->succ.push_back({dsim::self(), dsim::next_vt_id()});
+        dsim::spawn(worker_fn, nw, "worker'");
+        dsim::op_begin("thread-exit cleanup", 0);
+        return;
+      }
+      default: break;
+    }
+  }
+  dsim::set_pos(999);
+  dsim::op_begin("thread-exit cleanup", 0);
+}
+
+void worker_fn(void *p)
+{
+  auto *w = static_cast<WArg *>(p);
+  set_probe_hash(w->probe_hash);
+  run_worker_ops(w);
+}
+
+// ---- coordinator ---------------------------------------------------------------------------------
+// the list published for the current epoch and GetMinEpoch, read by the coordinator in observer scope
+struct Published {
+  std::vector<size_t> list;
+  size_t min = 0;
+  size_t cur = 0;
+};
+Published read_published()
+{
+  Published p;
+  dsim::Observer ob(1u << 20);
+  dsim::set_alloc_tag(kTagGuard);
+  {
+    auto pr = S->mgr->GetProtectedEpochs();
+    p.list.assign(pr.second.begin(), pr.second.end());
+    p.cur = pr.first.GetProtectedEpoch();
+  }
+  dsim::set_alloc_tag(0);
+  p.min = S->mgr->GetMinEpoch();
+  return p;
+}
+
+void forward_once(bool concurrent)
+{
+  // snapshot of the complete, live guards at the start of the call
+  std::vector<size_t> snap;
+  for (size_t i = 0; i < S->guards.size(); ++i)
+    if (S->guards[i].alive) snap.push_back(i);
+  const bool quiet_at_start = snap.empty() && S->creates_in_flight == 0 && S->destroys_in_flight == 0;
+  const uint64_t act = S->guard_activity;
+  size_t before;
+  {
+    dsim::Observer ob;
+    before = S->mgr->GetCurrentEpoch();
+  }
+  const size_t nodes_before = live_nodes();
+  S->forwards_started++;
+  dsim::set_alloc_tag(kTagForward);
+  dsim::op_begin("ForwardGlobalEpoch", 0);
+  S->mgr->ForwardGlobalEpoch();
+  dsim::op_end();
+  dsim::set_alloc_tag(0);
+  S->forwards_done++;
+  const size_t nodes_after = live_nodes();
+  if (nodes_after > nodes_before) dsim::probe(pNodeCreated);
+  if (nodes_after < nodes_before || (((before + 1) & 255) == 0 && nodes_after <= nodes_before)) dsim::probe(pNodeRetired);
+  size_t after;
+  {
+    dsim::Observer ob;
+    after = S->mgr->GetCurrentEpoch();
+  }
+  if (after != before + 1) {
+    ORACLE("[C16]", "epoch-not-advanced-by-one", " :: GetCurrentEpoch was %zu before ForwardGlobalEpoch and %zu after it", before, after);
+  }
+  S->last_cur[0] = after;
+  const Published pub = read_published();
+  if (pub.min > S->max_min_seen) S->max_min_seen = pub.min;
+  if (pub.min > after) {
+    ORACLE("[C16]", "min-epoch-exceeds-current", " :: GetMinEpoch is %zu while GetCurrentEpoch is %zu", pub.min, after);
+  }
+  // C04: every guard of the snapshot that is still alive is covered by the list published for the new epoch
+  for (size_t gi : snap) {
+    const GuardRec &g = S->guards[gi];
+    if (!g.alive) continue;
+    dsim::probe(pGuardSeenByForward);
+    if (std::find(pub.list.begin(), pub.list.end(), g.epoch) == pub.list.end()) {
+      ORACLE("[C04]", "live-guard-epoch-not-in-published-list",
+             " :: the guard of vt%d pins epoch %zu, was complete before ForwardGlobalEpoch (-> %zu) started and is still alive, but the published list does not contain it",
+             g.vt, g.epoch, after);
+    }
+    if (pub.min > g.epoch) {
+      ORACLE("[C04]", "min-epoch-exceeds-live-guard", " :: GetMinEpoch is %zu although the live guard of vt%d pins epoch %zu", pub.min, g.vt, g.epoch);
+    }
+  }
+  // C16: a forward that ran with no guard anywhere publishes exactly {current, current-1}
+  if (quiet_at_start && S->guard_activity == act && S->creates_in_flight == 0 && concurrent) {
+    dsim::probe(pQuiescentForward);
+    if (!(pub.list.size() == 2 && pub.list[0] == after && pub.list[1] == after - 1) || pub.min != after - 1) {
+      ORACLE("[C16]", "quiescent-forward-keeps-pins", " :: no guard existed during ForwardGlobalEpoch (-> %zu) but the list has %zu entries (first %zu, last %zu) and GetMinEpoch is %zu",
+             after, pub.list.size(), pub.list.empty() ? 0 : pub.list.front(), pub.list.empty() ? 0 : pub.list.back(), pub.min);
+    }
+  }
+}
+
+void prologue(int64_t forwards)
+{
+  // sequential prologue: real code, scheduler bypassed (nothing else runs yet)
+  dsim::Observer ob(1ull << 40);
+  dsim::set_alloc_tag(kTagForward);
+  for (int64_t i = 0; i < forwards; ++i) S->mgr->ForwardGlobalEpoch();
+  dsim::set_alloc_tag(0);
+  S->forwards_done += static_cast<uint64_t>(forwards);
+  S->forwards_started += static_cast<uint64_t>(forwards);
+}
+
+void final_quiescent_check()
+{
+  // all guards are gone: one more complete forward, then the list is exactly {cur, cur-1}
+  set_phase("final");
+  forward_once(false);
+  const Published pub = read_published();
+  size_t cur;
+  {
+    dsim::Observer ob;
+    cur = S->mgr->GetCurrentEpoch();
+  }
+  dsim::probe(pQuiescentForward);
+  if (!(pub.list.size() == 2 && pub.list[0] == cur && pub.list[1] == cur - 1) || pub.min != cur - 1) {
+    ORACLE("[C16]", "destroyed-guard-still-pins", " :: all guards are destroyed and a complete ForwardGlobalEpoch (-> %zu) ran, but the list has %zu entries (last %zu) and GetMinEpoch is %zu",
+           cur, pub.list.size(), pub.list.empty() ? 0 : pub.list.back(), pub.min);
+  }
+}
+
+// ---- sequential histories (C20) --------------------------------------------------------------------
+enum Cmd : int { cNone = 0, cCreate, cDestroy, cExit };
+struct SeqW {
+  int slot;
+  size_t probe_hash;
+};
+void seq_worker_fn(void *p)
+{
+  auto *w = static_cast<SeqW *>(p);
+  set_probe_hash(w->probe_hash);
+  std::optional<EpochGuard> g;
+  for (;;) {
+    dsim::wait_signal();
+    const int cmd = S->slot_cmd[w->slot];
+    if (cmd == cCreate) {
+      dsim::set_alloc_tag(kTagGuard);
+      dsim::op_begin("CreateEpochGuard", 0);
+      g.emplace(S->mgr->CreateEpochGuard());
+      dsim::op_end();
+      dsim::set_alloc_tag(0);
+      S->slot_epoch[w->slot] = g->GetProtectedEpoch();
+    } else if (cmd == cDestroy) {
+      dsim::op_begin("destroy guard", 0);
+      g.reset();
+      dsim::op_end();
+    } else if (cmd == cExit) {
+      dsim::signal(0);
+      dsim::op_begin("thread-exit cleanup", 0);
+      return;
+    }
+    dsim::signal(0);
+  }
+}
+
+void seq_command(int slot, int cmd)
+{
+  S->slot_cmd[slot] = cmd;
+  dsim::signal(S->slot_vt[slot]);
+  dsim::wait_signal();
+}
+
+void seq_check_after_forward(size_t new_epoch)
+{
+  std::vector<size_t> want = {new_epoch, new_epoch - 1};
+  for (int s = 0; s < 8; ++s)
+    if (S->slot_has_guard[s]) want.push_back(S->slot_epoch[s]);
+  std::sort(want.begin(), want.end(), std::greater<size_t>{});
+  want.erase(std::unique(want.begin(), want.end()), want.end());
+  const Published pub = read_published();
+  if (pub.list != want) {
+    std::string a, b;
+    for (auto v : pub.list) a += std::to_string(v) + " ";
+    for (auto v : want) b += std::to_string(v) + " ";
+    ORACLE("[C20]", "published-list-differs-from-model", " :: after the forward to %zu the list is {%s} but the reference model says {%s}", new_epoch,
+           a.substr(0, 300).c_str(), b.substr(0, 300).c_str());
+  }
+  if (pub.min != want.back()) {
+    ORACLE("[C20]", "min-epoch-differs-from-model", " :: after the forward to %zu GetMinEpoch is %zu, the reference model says %zu", new_epoch, pub.min,
+           want.back());
+  }
+  std::vector<size_t> ranges;
+  for (auto v : want) ranges.push_back(v / 256);
+  ranges.erase(std::unique(ranges.begin(), ranges.end()), ranges.end());
+  const size_t nodes = live_nodes();
+  if (nodes > S->nodes_seen_max) S->nodes_seen_max = nodes;
+  if (nodes > ranges.size() + 2) {
+    ORACLE("[C20]", "list-memory-not-bounded", " :: %zu list nodes are alive at epoch %zu although only %zu distinct 256-epoch ranges hold a pinned or current epoch",
+           nodes, new_epoch, ranges.size());
+  }
+}
+
+void run_sequential(const Program &p)
+{
+  const int W = static_cast<int>(p.params.size() > 1 ? p.params[1] : 1);
+  std::vector<SeqW> args(8);
+  for (int s = 1; s <= W; ++s) {
+    args[static_cast<size_t>(s)] = SeqW{s, static_cast<size_t>(p.params.size() > 2 ? p.params[2] : 0) + static_cast<size_t>(s)};
+    S->slot_vt[s] = dsim::spawn(seq_worker_fn, &args[static_cast<size_t>(s)], "worker");
+  }
+  size_t epoch = kInitial;
+  for (const Op &op : p.threads[0]) {
+    switch (op.kind) {
+      case kSeqForward: {
+        const size_t nodes0 = live_nodes();
+        for (int64_t i = 0; i < op.a; ++i) {
+          {
+            dsim::Observer ob(1ull << 40);  // nothing runs concurrently with ForwardGlobalEpoch in these histories
+            dsim::set_alloc_tag(kTagForward);
+            S->mgr->ForwardGlobalEpoch();
+            dsim::set_alloc_tag(0);
+          }
+          epoch++;
+          S->forwards_done++;
+          // check after every forward near interesting points, and at least every 64 forwards
+          if (i + 3 >= op.a || (epoch & 255) <= 2 || (epoch & 255) >= 254 || (i & 63) == 0) seq_check_after_forward(epoch);
+        }
+        const size_t nodes1 = live_nodes();
+        if (nodes1 > nodes0) dsim::probe(pNodeCreated);
+        if (op.a >= 256 && nodes1 <= nodes0) dsim::probe(pNodeRetired);
+        size_t cur;
+        {
+          dsim::Observer ob;
+          cur = S->mgr->GetCurrentEpoch();
+        }
+        if (cur != epoch) {
+          ORACLE("[C20][C16]", "epoch-count-differs-from-model", " :: GetCurrentEpoch is %zu after %lu forwards, expected %zu", cur,
+                 static_cast<unsigned long>(S->forwards_done), epoch);
+        }
+        break;
+      }
+      case kSeqCreate:
+        if (op.obj >= 1 && op.obj <= W && !S->slot_has_guard[op.obj]) {
+          seq_command(op.obj, cCreate);
+          S->slot_has_guard[op.obj] = true;
+          if (S->slot_epoch[op.obj] != epoch) {
+            ORACLE("[C20][C04]", "guard-epoch-differs-from-model", " :: a guard created at epoch %zu reports %zu", epoch, S->slot_epoch[op.obj]);
+          }
+        }
+        break;
+      case kSeqDestroy:
+        if (op.obj >= 1 && op.obj <= W && S->slot_has_guard[op.obj]) {
+          if (S->slot_epoch[op.obj] / 256 != epoch / 256) dsim::probe(pPinnedAcrossBoundary);
+          if (epoch >= S->slot_epoch[op.obj] + 2) dsim::probe(pWorkerAcrossForwards);
+          seq_command(op.obj, cDestroy);
+          S->slot_has_guard[op.obj] = false;
+        }
+        break;
+      case kSeqRestart:
+        if (op.obj >= 1 && op.obj <= W) {
+          if (S->slot_has_guard[op.obj]) {
+            seq_command(op.obj, cDestroy);
+            S->slot_has_guard[op.obj] = false;
+          }
+          const int old = S->slot_vt[op.obj];
+          seq_command(op.obj, cExit);
+          dsim::join(old);
+          dsim::count_fault(dsim::kFThreadExit);
+          dsim::count_fault(dsim::kFThreadRestart);
+          dsim::probe(pRestart);
+          dsim::probe(pIdReuse);
+          args[static_cast<size_t>(op.obj)].probe_hash += static_cast<size_t>(op.a);
+          S->slot_vt[op.obj] = dsim::spawn(seq_worker_fn, &args[static_cast<size_t>(op.obj)], "worker'");
+        }
+        break;
+      default: break;
+    }
+  }
+  for (int s = 1; s <= W; ++s) {
+    if (S->slot_has_guard[s]) {
+      seq_command(s, cDestroy);
+      S->slot_has_guard[s] = false;
+    }
+    const int v = S->slot_vt[s];
+    seq_command(s, cExit);
+    dsim::join(v);
+  }
+  // one more forward with nothing pinned
+  {
+    dsim::Observer ob(1ull << 40);
+    dsim::set_alloc_tag(kTagForward);
+    S->mgr->ForwardGlobalEpoch();
+    dsim::set_alloc_tag(0);
+  }
+  epoch++;
+  seq_check_after_forward(epoch);
+}
+
+// ---- entry -----------------------------------------------------------------------------------------
+void entry(void *)
+{
+  const Program &p = current_program();
+  S = new State{};
+  S->prog = &p;
+  dsim::set_uaf_policy(kTagGuard, dsim::kUafNote);  // shared_ptr control blocks of heartbeats: not list memory, not a listed property
+  set_probe_hash(static_cast<size_t>(p.params.size() > 2 ? p.params[2] : 0));
+  dsim::set_alloc_tag(kTagCtor);
+  S->mgr = new EpochManager{};
+  dsim::set_alloc_tag(0);
+  {
+    size_t c0;
+    {
+      dsim::Observer ob;
+      c0 = S->mgr->GetCurrentEpoch();
+    }
+    if (c0 != kInitial) ORACLE("[C16]", "initial-epoch", " :: a new EpochManager reports epoch %zu, documented initial epoch is %zu", c0, kInitial);
+  }
+  // the coordinator takes its thread ID and slot before anything else runs
+  {
+    dsim::set_alloc_tag(kTagGuard);
+    EpochGuard warm = S->mgr->CreateEpochGuard();
+    dsim::set_alloc_tag(0);
+  }
+  if (p.profile == kSequential) {
+    run_sequential(p);
+  } else {
+    prologue(p.params.empty() ? 0 : p.params[0]);
+    S->last_cur[0] = kInitial + static_cast<size_t>(p.params.empty() ? 0 : p.params[0]);
+    const int W = static_cast<int>(p.threads.size()) - 1;
+    std::vector<WArg *> args;
+    std::vector<int> first_vt(8, -1);
+    for (int s = 1; s <= W; ++s) {
+      auto *w = new WArg{s, 0, static_cast<size_t>(p.params.size() > 2 ? p.params[2] : 0) + static_cast<size_t>(s) * static_cast<size_t>(p.params.size() > 3 ? p.params[3] : 1)};
+      args.push_back(w);
+      S->slot_vt[s] = dsim::next_vt_id();  // the worker may run (and register a successor) before spawn returns
+      first_vt[static_cast<size_t>(s)] = S->slot_vt[s];
+      dsim::spawn(worker_fn, w, "worker");
+    }
+    set_phase("concurrent");
+    for (const Op &op : p.threads[0]) {
+      if (op.kind != kForward) continue;
+      for (int64_t i = 0; i < op.a; ++i) {
+        forward_once(true);
+        reading_current("coordinator");
+        for (int64_t y = 0; y < op.b; ++y) dsim::yield();
+      }
+    }
+    // wait for every worker chain to end (a worker registers its successor before it exits)
+    for (int s = 1; s <= W; ++s) {
+      for (int v = first_vt[static_cast<size_t>(s)];;) {
+        dsim::join(v);
+        int next = -1;
+        for (auto &pr : S->succ)
+          if (pr.first == v) next = pr.second;
+        if (next < 0) break;
+        v = next;
+        dsim::probe(pIdReuse);
+      }
+    }
+    final_quiescent_check();
+  }
+  // C20: destroying the manager frees all list memory
+  set_phase("teardown");
+  const size_t nodes_before_delete = live_nodes();
+  (void)nodes_before_delete;
+  delete S->mgr;
+  S->mgr = nullptr;
+  const size_t left = dsim::heap_live(kTagCtor) + dsim::heap_live(kTagForward);
+  if (left != 0) {
+    ORACLE("[C20]", "list-memory-not-freed", " :: %zu block(s) allocated by EpochManager for its lists are still alive after the manager was destroyed", left);
+  }
+  delete S;
+  S = nullptr;
+}
+
+// ---- generator -------------------------------------------------------------------------------------
+void generate(Program &prog, dsim::Config &cfg, dsim::Rng &pr, dsim::Rng &cr, int, int profile)
+{
+  const int n = static_cast<int>(kN);
+  int W = n - 1;
+  if (W > 3) W = 1 + static_cast<int>(pr.below(3));
+  if (W < 0) W = 0;
+  prog.threads.clear();
+  if (profile == kSequential) {
+    // params: [0, W, probe hash base]
+    prog.params = {0, W, static_cast<int64_t>(pr.below(1000))};
+    std::vector<Op> h;
+    const int len = 6 + static_cast<int>(pr.below(30));
+    for (int i = 0; i < len; ++i) {
+      Op o;
+      const uint64_t x = pr.below(100);
+      if (x < 35 || W == 0) {
+        o.kind = kSeqForward;
+        switch (pr.below(6)) {
+          case 0: o.a = 1; break;
+          case 1: o.a = 1 + static_cast<int64_t>(pr.below(4)); break;
+          case 2: o.a = 250 + static_cast<int64_t>(pr.below(12)); break;
+          case 3: o.a = 1 + static_cast<int64_t>(pr.below(700)); break;
+          case 4: o.a = 256 * (1 + static_cast<int64_t>(pr.below(4))) + static_cast<int64_t>(pr.below(3)) - 1; break;
+          default: o.a = 1 + static_cast<int64_t>(pr.below(60)); break;
+        }
+      } else if (x < 65) {
+        o.kind = kSeqCreate;
+        o.obj = 1 + static_cast<int>(pr.below(static_cast<uint64_t>(W)));
+      } else if (x < 90) {
+        o.kind = kSeqDestroy;
+        o.obj = 1 + static_cast<int>(pr.below(static_cast<uint64_t>(W)));
+      } else {
+        o.kind = kSeqRestart;
+        o.obj = 1 + static_cast<int>(pr.below(static_cast<uint64_t>(W)));
+        o.a = static_cast<int64_t>(pr.below(5));
+      }
+      h.push_back(o);
+    }
+    prog.threads.push_back(h);
+    cfg.strategy = dsim::kSequential;
+    cfg.spin_bound = 3 * n + 12;
+    cfg.max_steps = 2000000;
+    return;
+  }
+  // concurrent profiles.  params: [prologue forwards, W, probe hash base, probe hash stride]
+  int64_t prologue = 0;
+  switch (pr.below(profile == kLists ? 4 : 6)) {
+    case 0: prologue = 511 - static_cast<int64_t>(pr.below(4)); break;           // epoch just below 768: next node boundary with 3 nodes alive
+    case 1: prologue = 255 - static_cast<int64_t>(pr.below(4)); break;           // just below 512
+    case 2: prologue = 767 - static_cast<int64_t>(pr.below(3)); break;           // just below 1024
+    case 3: prologue = 509 + static_cast<int64_t>(pr.below(6)); break;
+    case 4: prologue = 0; break;
+    default: prologue = static_cast<int64_t>(pr.below(40)); break;
+  }
+  prog.params = {prologue, W, static_cast<int64_t>(pr.below(1000)), static_cast<int64_t>(pr.below(3))};
+  std::vector<Op> coord;
+  const int bursts = 1 + static_cast<int>(pr.below(3));
+  for (int b = 0; b < bursts; ++b) {
+    Op o;
+    o.kind = kForward;
+    o.a = 1 + static_cast<int64_t>(pr.below(profile == kLists ? 5 : 4));
+    o.b = static_cast<int64_t>(pr.below(4));
+    coord.push_back(o);
+  }
+  prog.threads.push_back(coord);
+  for (int s = 1; s <= W; ++s) {
+    std::vector<Op> ops;
+    const int nops = 1 + static_cast<int>(pr.below(4));
+    for (int i = 0; i < nops; ++i) {
+      Op o;
+      const uint64_t x = pr.below(100);
+      if (x < (profile == kAdvance ? 35u : 60u)) {
+        o.kind = kGuard;
+        o.a = static_cast<int64_t>(pr.below(4));
+        o.b = profile == kLists ? 1 : static_cast<int64_t>(pr.below(2));
+        o.c = static_cast<int64_t>(pr.below(3));
+      } else if (x < (profile == kAdvance ? 70u : 72u)) {
+        o.kind = kReadings;
+        o.a = static_cast<int64_t>(pr.below(3));
+      } else if (x < 85) {
+        o.kind = kGuardMove;
+        o.a = static_cast<int64_t>(pr.below(3));
+      } else {
+        o.kind = kRestart;
+        o.a = static_cast<int64_t>(pr.below(3));
+      }
+      ops.push_back(o);
+    }
+    prog.threads.push_back(ops);
+  }
+  const uint64_t s = cr.below(100);
+  if (s < 25) cfg.strategy = dsim::kRandom;
+  else if (s < 50) cfg.strategy = dsim::kSticky;
+  else if (s < 75) cfg.strategy = dsim::kPCT;
+  else cfg.strategy = dsim::kStall;
+  cfg.pct_depth = 1 + static_cast<int>(cr.below(3));
+  cfg.pct_len = 60 + static_cast<int>(prog.total_ops()) * 20;
+  cfg.sticky_percent = 40 + static_cast<int>(cr.below(55));
+  if (cfg.strategy == dsim::kStall) {
+    cfg.stall_permille = 15 + static_cast<int>(cr.below(60));
+    cfg.stall_max = 30 + static_cast<int>(cr.below(1500));
+  }
+  cfg.spin_bound = 3 * n + 12;
+  cfg.max_steps = 200000;
+}
+
+std::string render(const Program &p)
+{
+  std::string s = "EpochManager capacity " + std::to_string(kN) + ", profile " + std::to_string(p.profile);
+  if (p.profile == kSequential) {
+    s += ", sequential history with " + std::to_string(p.params.size() > 1 ? p.params[1] : 0) + " workers:\n  ";
+    for (auto &o : p.threads[0]) {
+      switch (o.kind) {
+        case kSeqForward: s += "forward x" + std::to_string(o.a) + "; "; break;
+        case kSeqCreate: s += "W" + std::to_string(o.obj) + ".create; "; break;
+        case kSeqDestroy: s += "W" + std::to_string(o.obj) + ".destroy; "; break;
+        case kSeqRestart: s += "W" + std::to_string(o.obj) + ".exit+restart; "; break;
+        default: break;
+      }
+    }
+    return s + "\n";
+  }
+  s += ", prologue " + std::to_string(p.params.empty() ? 0 : p.params[0]) + " forwards (epoch " +
+       std::to_string(kInitial + static_cast<size_t>(p.params.empty() ? 0 : p.params[0])) + ")\n  coordinator:";
+  for (auto &o : p.threads[0]) s += " forward x" + std::to_string(o.a) + " (yields " + std::to_string(o.b) + ");";
+  s += "\n";
+  for (size_t t = 1; t < p.threads.size(); ++t) {
+    s += "  W" + std::to_string(t) + ":";
+    for (auto &o : p.threads[t]) {
+      switch (o.kind) {
+        case kGuard: s += std::string(o.b ? " GetProtectedEpochs" : " CreateEpochGuard") + "(hold " + std::to_string(o.a) + ", rereads " + std::to_string(o.c) + ");"; break;
+        case kReadings: s += " readings x" + std::to_string(o.a + 1) + ";"; break;
+        case kRestart: s += " exit+restart;"; break;
+        case kGuardMove: s += " guard+moves(hold " + std::to_string(o.a) + ");"; break;
+        default: break;
+      }
+    }
+    s += "\n";
+  }
+  return s;
+}
+
+std::string tags_for_runtime_class(const Program &p, const char *cls)
+{
+  const std::string c = cls;
+  if (c.rfind("heap/", 0) == 0) {
+    if (c.find("tag2") != std::string::npos || c.find("tag3") != std::string::npos) return p.profile == kSequential ? "[C20][C17]" : "[C17]";
+    return "[harness]";
+  }
+  if (c.rfind("crash/", 0) == 0) return p.profile == kSequential ? "[C20]" : "[C17][C04]";
+  if (c.rfind("deadlock", 0) == 0) return "[C04][C16][C17][C20] no-progress";
+  if (c.rfind("observer/", 0) == 0) return "[C04][C16][C20] no-progress";
+  return "[inconclusive]";
+}
+
+void process_init()
+{
+  const char *e = getenv("VERIF_PROP");
+  g_prop = e ? std::string("[") + e + "]" : "";
+}
+}  // namespace
+
+const Scenario kEpochScenario = {"epoch", generate, entry, render, tags_for_runtime_class, kProbeNames, process_init};
+
+}  // namespace sim
